@@ -32,6 +32,7 @@ type uiModel struct {
 	list     []int32
 	pageSize int
 	jumping  bool // the next key is a jump label
+	lineOf   func(idx int32) string
 }
 
 func isWordRune(r rune) bool { return unicode.IsLetter(r) || unicode.IsNumber(r) }
@@ -225,6 +226,12 @@ func (m *uiModel) apply(action string) bool {
 		m.kill(m.cx, len(m.query))
 	case "yank":
 		m.insert(m.yank)
+	case "replace-query":
+		// the query becomes a copy of the current line's text
+		if idx, ok := m.current(); ok && m.lineOf != nil {
+			m.query = []rune(m.lineOf(idx))
+			m.cx = len(m.query)
+		}
 	case "clear-query":
 		m.query, m.cx = nil, 0
 	case "change-query":
@@ -360,7 +367,7 @@ var c09Actions = []string{
 	"up", "down", "first", "last", "pos(3)", "pos(-2)", "pos(0)", "page-up", "page-down", "half-page-up", "half-page-down",
 	"select", "deselect", "toggle", "toggle+down", "toggle+up", "toggle-down", "toggle-up", "toggle-in", "toggle-out", "select-all", "deselect-all",
 	"toggle-all", "clear-selection", "change-multi(2)", "change-multi", "change-multi(0)",
-	"jump", "put(" + c09LongText + ")",
+	"jump", "put(" + c09LongText + ")", "replace-query",
 }
 
 // longer than the 1000 runes a query may hold
@@ -395,6 +402,15 @@ func genC09Plan(r *zsim.Rng) *sysPlan {
 		n = r.Range(300, 900)
 	}
 	p.Lines = lineSpec{N: n, Seed: r.Seed53(), Shape: r.Intn(4)}
+	if r.Chance(1, 3) {
+		// some lines outside ASCII (kept as runes, not bytes, by the item); now and then nearly all of them
+		if !bigStream && r.Chance(1, 2) {
+			p.Lines.N = r.Intn(3)
+		}
+		for k := r.Range(1, 6); k > 0; k-- {
+			p.Lines.Extra = append(p.Lines.Extra, []string{"héllo wörld", "日本語 ab", "ab é日 cd", "ÀÉÎ õü f", "e-d 日é"}[r.Intn(5)]+fmt.Sprintf(" ~%d", k))
+		}
+	}
 	switch r.Intn(4) {
 	case 0:
 		p.Multi = 0
@@ -635,6 +651,12 @@ func runC09(c *runCtx) {
 	defer r.cleanup()
 	r.start()
 	st.lines = r.lines
+	m.lineOf = func(idx int32) string {
+		if int(idx) < len(st.lines) {
+			return st.lines[idx]
+		}
+		return ""
+	}
 	ok := r.drive()
 	if ok && !r.done {
 		r.finish()
@@ -840,6 +862,10 @@ func c09Settle(r *sysRun, st *c09State, busy bool, final bool) {
 		}
 		if burstQueryChanged && !isEditAction(ev.Tag) {
 			st.listExact = false
+		}
+		if burstQueryChanged && strings.Contains(ev.Tag, "replace-query") {
+			// which line is current depends on whether the list of the query just typed has arrived
+			st.exact = false
 		}
 		before := string(m.query)
 		if m.jumping {
